@@ -7,6 +7,7 @@ import (
 	"strings"
 	"sync"
 
+	"github.com/AdguardTeam/urlfilter"
 	"github.com/AdguardTeam/urlfilter/rules"
 	"github.com/miekg/dns"
 
@@ -352,8 +353,25 @@ func c10Check(c *Ctx, v string) (accepted bool) {
 	if why := c10Echo(v, r1.DNSRewrite); why != "" {
 		c.Run.Violate(ev.Violation{Pred: "value-equals-written-value", Sig: map[string]any{"value": v}, What: fmt.Sprintf("%q accepted with %s", text, why), Replay: map[string]any{"value": v}})
 	}
+	// the value stays what was parsed while the rule is used: evaluated together with an exception for the
+	// same value and one for another value
+	if p := protect(func() {
+		lst := []*rules.NetworkRule{r1}
+		for _, t := range []string{"@@" + text, "@@||h.test^$dnsrewrite=NOERROR;PTR;other.example.net.", "@@||h.test^$dnsrewrite=other.example.net"} {
+			if x, err := rules.NewNetworkRule(t, 1); err == nil && x != nil {
+				lst = append(lst, x)
+			}
+		}
+		res := &urlfilter.DNSResult{NetworkRules: lst}
+		res.DNSRewrites()
+		res.DNSRewritesAll()
+		res.DNSRewrites()
+	}); p != nil {
+		c.Run.Violate(ev.Violation{Pred: "no-crash", Sig: map[string]any{"value": v, "route": "DNSRewrites"}, What: fmt.Sprintf("evaluating the rewrites of %q with exceptions panics: %v", text, p), Replay: map[string]any{"value": v}})
+		return true
+	}
 	if !reflect.DeepEqual(r1.DNSRewrite, r2.DNSRewrite) {
-		c.Run.Violate(ev.Violation{Pred: "deterministic", Sig: map[string]any{"value": v}, What: fmt.Sprintf("parsing %q twice gives %+v and %+v", text, *r1.DNSRewrite, *r2.DNSRewrite), Replay: map[string]any{"value": v}})
+		c.Run.Violate(ev.Violation{Pred: "deterministic", Sig: map[string]any{"value": v}, What: fmt.Sprintf("parsing %q twice gives %+v (after it was evaluated with exceptions) and %+v (never used)", text, *r1.DNSRewrite, *r2.DNSRewrite), Replay: map[string]any{"value": v}})
 	}
 	return true
 }
